@@ -360,9 +360,12 @@ def sequential_equals_joint(run):
                                          pq.Beamsplitter(theta=0.7, phi=0.3).on_modes(0, 1)]),
         "SamplingSimulator": (lambda: pq.SamplingSimulator(d=3), [pq.StateVector([1, 1, 0]), pq.Interferometer(U),
                                                                    pq.Beamsplitter(theta=0.9).on_modes(1, 2)]),
+        "FockSimulator": (lambda: pq.FockSimulator(d=3, config=pq.Config(cutoff=4)),
+                          [pq.DensityMatrix(ket=(0, 2, 0), bra=(0, 2, 0)) * 0.5, pq.DensityMatrix(ket=(1, 0, 1), bra=(1, 0, 1)) * 0.5,
+                           pq.Beamsplitter(theta=0.7, phi=0.3).on_modes(0, 1), pq.Beamsplitter(theta=0.4).on_modes(1, 2)]),
     }
     for name, (mk, prep) in cases.items():
-        for split in ([(0, 1, 2)], [(0,), (1, 2)], [(1,), (0,), (2,)], [(2, 0), (1,)]):
+        for split in ([(0, 1, 2)], [(0,), (1, 2)], [(1,), (0,), (2,)], [(2, 0), (1,)], [(2, 0, 1)], [(1, 0, 2)], [(2,), (1, 0)]):
             try:
                 ins = list(prep) + [pq.ParticleNumberMeasurement().on_modes(*m) for m in split]
                 res = mk().execute_instructions([i.copy() for i in ins], shots=None)
@@ -382,8 +385,35 @@ def sequential_equals_joint(run):
                 if worst > 1e-9:
                     fails.append({"simulator": name, "split": split, "max_abs_diff": worst,
                                   "sum_joint": sum(ref.values()), "sum_sequential": sum(dist.values())})
+            except pq.api.exceptions.InvalidSimulation:
+                continue        # the simulator does not support this construct (mid-circuit measurement)
             except Exception as e:
                 fails.append({"simulator": name, "split": split, "error": f"{type(e).__name__}: {e}"[:200]})
+    # weights after a post-selection are joint probabilities P(postselected value, outcome), not conditional ones
+    for name, (mk, prep) in cases.items():
+        if name == "SamplingSimulator":
+            continue       # covered by the recorded known finding (unnormalised branch states on the passive simulator)
+        try:
+            joint = {}
+            res = mk().execute_instructions([i.copy() for i in prep] + [pq.ParticleNumberMeasurement().on_modes(0, 1, 2)], shots=None)
+            for b in res.branches:
+                joint[tuple(b.outcome)] = joint.get(tuple(b.outcome), 0.0) + float(b.frequency)
+            for k in sorted({o[0] for o in joint}):
+                res = mk().execute_instructions([i.copy() for i in prep] + [pq.PostSelectPhotons(photon_counts=(k,)).on_modes(0),
+                                                                           pq.ParticleNumberMeasurement().on_modes(1, 2)], shots=None)
+                ev += 1
+                got = {}
+                for b in res.branches:
+                    got[(k,) + tuple(b.outcome[-2:])] = got.get((k,) + tuple(b.outcome[-2:]), 0.0) + float(b.frequency)
+                want = {o: p for o, p in joint.items() if o[0] == k}
+                worst = max(abs(want.get(o, 0.0) - got.get(o, 0.0)) for o in set(want) | set(got))
+                if worst > 1e-9:
+                    fails.append({"simulator": name, "split": f"PostSelectPhotons({k}) on mode 0, then modes (1, 2)", "max_abs_diff": worst,
+                                  "sum_joint": sum(want.values()), "sum_sequential": sum(got.values())})
+        except pq.api.exceptions.InvalidSimulation:
+            continue            # no post-selection on this simulator
+        except Exception as e:
+            fails.append({"simulator": name, "split": "postselect", "error": f"{type(e).__name__}: {e}"[:200]})
     return ev, fails
 
 
@@ -409,7 +439,12 @@ def check(run):
                    replay={"kind": "bounded", "module": "contracts.C03"}, reproduced=True, observed={"failures": fs[:8]})
     by_sim = {}
     for f in seq_fails:
-        by_sim.setdefault(f["simulator"], []).append(f)
+        # two different ways to fail: the sequential weights do not even add up to the joint total (lost / double-counted
+        # branch weight), or they do and the distribution over outcome tuples differs (e.g. mislabelled outcomes)
+        kind = "error" if "error" in f else (
+            "weights-do-not-sum-to-the-joint-total" if ("sum_joint" not in f or abs(f["sum_joint"] - f["sum_sequential"]) > 1e-9)
+            else "outcomes-mislabelled-or-redistributed")
+        by_sim.setdefault(f"{f['simulator']}/{kind}", []).append(f)
     for sim, fs in by_sim.items():
         run.failed(f"C03/bounded/sequential=joint(shots=None)/{sim}", "rtc", "run-time-contract",
                    what=f"measuring modes one after another differs from measuring them together on {sim}: {fs[0]}",
@@ -420,7 +455,7 @@ def check(run):
                               "wrapped around the real Simulator._apply_instruction_to_branches; Result.samples/get_counts",
                        bound="shots in {1,2,7,30} (quick) / up to 1000 (thorough)", evaluations=ev, distinct=distinct,
                        failures=len(failures), note=f"wrapper evaluations: {wrapped_calls}")
-    run.bounded_result("C03/bounded/sequential=joint(shots=None)", domain="3 simulators x 4 splits of the measured modes",
+    run.bounded_result("C03/bounded/sequential=joint(shots=None)", domain="4 simulators x 7 splits of the measured modes (incl. permuted full tuples); post-selection then measurement = joint probability",
                        bound="d=3, cutoff 4, tol 1e-9", evaluations=ev2, distinct=ev2, failures=len(seq_fails))
     run.trust("vf/pyvc.py expression evaluator (statement-level triples); z3/cvc5")
     run.assume("Fraction arithmetic is exact (modelled as SMT reals); int() of an integer-valued Fraction is that integer")
